@@ -262,12 +262,15 @@ pub struct Macro { pub delimiter: MacroDelimiter, pub rest: Node }
 pub struct ExprMacro { pub mac: Macro, pub rest: Node }
 pub struct Label { pub rest: Node }
 pub struct ExprBlock { pub label: Option<Label>, pub rest: Node }
+pub enum UnOp { Deref(Node), Not(Node), Neg(Node) }
+pub struct ExprUnary { pub op: UnOp, pub expr: Box<Expr>, pub rest: Node }
 pub enum Expr {
     Let(ExprLet),
     Block(ExprBlock),
     Macro(ExprMacro),
     Assign(Node), AssignOp(Node), Binary(Node), Box(Node), Break(Node), Cast(Node), Closure(Node),
-    Range(Node), Reference(Node), Return(Node), Type(Node), Unary(Node), Yield(Node),
+    Range(Node), Reference(Node), Return(Node), Type(Node), Unary(ExprUnary), Yield(Node),
+    Lit(Node),
     Other(Node),
 }
 
@@ -430,6 +433,13 @@ pub fn vec_last_push<T>(v: &mut Vec<Vec<T>>, x: T)
     let mut last = v.pop().unwrap();
     last.push(x);
     v.push(last);
+}
+
+/// R12 helper: `v.get(i)` on a vector (slice::get with a usize index), written out; the body is verified
+pub fn vec_get<T>(v: &Vec<T>, i: usize) -> (r: Option<&T>)
+    ensures r == (if i < v@.len() { Some(&v@[i as int]) } else { None::<&T> }),
+{
+    if i < v.len() { Some(&v[i]) } else { None }
 }
 
 /// R12 helper: `x.into()` where the target is `Option<X>` (std: `impl<T> From<T> for Option<T>`)
